@@ -27,7 +27,7 @@ def prebuild():
 def gen(seed, tier):
     rng = random.Random(seed)
     out = []
-    shs = [[3], [2, 3], [1, 3], [2, 3, 2], [2, 1, 2], [2, 2, 2, 2], [1, 1], [3, 1, 2, 1]]
+    shs = [[3], [2, 3], [1, 3], [2, 3, 2], [2, 1, 2], [2, 2, 2, 2], [1, 1], [3, 1, 2, 1], [1]]
     for sh in shs:
         n = len(sh)
         a = arr(sh)
@@ -64,6 +64,35 @@ def gen(seed, tier):
             out.append(f"array_split {a} z1 {z(ax)}")
             out.append(f"split {a} z1 {z(ax)}")
             out.append(f"split_axis {a} {z(ax)}")
+        # arguments that make the operation a no-op (zero shift, zero turns, unit counts, nothing to delete) together
+        # with an axis outside the rank or a list of the wrong length: still an error, whatever shortcut exists
+        for ax in (n, n + 1, -n - 1, -n - 2, 2 ** 40):
+            out.append(f"roll {a} l0 {lst([ax])}")
+            out.append(f"roll {a} l0,0 {lst([0, ax])}")
+            out.append(f"roll {a} {lst([0, 0])} {lst([ax, 0])}")
+            out.append(f"roll {a} {lst([sh[0]])} {lst([ax])}")
+            out.append(f"flip {a} {lst([0, ax])}")
+            out.append(f"flip {a} {lst([ax, ax])}")
+            out.append(f"swapaxes {a} {z(ax)} {z(ax)}")
+            out.append(f"moveaxis {a} {lst([ax])} {lst([ax])}")
+            out.append(f"rollaxis {a} {z(ax)} {z(ax)}")
+            out.append(f"expand_dims {a} {lst([0, ax])}")
+            for k in (0, 4, 8):
+                out.append(f"rot90 {a} z{k} {lst([ax, ax])}")
+                out.append(f"rot90 {a} z{k} {lst([0, 0])}")
+            if ax >= 0:
+                out.append(f"repeat {a} l1 {z(ax)}")
+                out.append(f"delete {a} l {z(ax)}")
+                out.append(f"array_split {a} z1 {z(ax)}")
+                out.append(f"split {a} z1 {z(ax)}")
+        out.append(f"roll {a} l0,0,0 l0,{-1 if n > 1 else 0}")
+        out.append(f"roll {a} l0,0 l0,0,0")
+        out.append(f"roll {a} l l0")
+        out.append(f"roll {a} l0 l")
+        out.append(f"repeat {a} l1,1,1,1,1,1,1 z0")
+        out.append(f"repeat {a} l n")
+        out.append(f"transpose {a} {lst(list(range(n)) + [n])}")
+        out.append(f"transpose {a} {lst(list(range(n + 1))[1:])}")
         # joins of arrays of different rank: an axis inside the larger rank only is still out of range
         for sh2 in ([2], [3], [2, 3], [3, 2], [2, 2, 2], [1], [2, 1]):
             if len(sh2) == n:
@@ -124,7 +153,8 @@ def gen(seed, tier):
             out.append(f"index_coords {a} {lst(c)}")
         for t in ([tot + 1], [tot, 2], [0], [], [2 ** 40]):
             out.append(f"reshape {a} {lst(t)}")
-            out.append(f"broadcast_to {a} {lst(t)}")
+            if not (t == [2 ** 40] and sh[-1] == 1):       # a unit axis really stretches to 2^40 entries: not a refusal
+                out.append(f"broadcast_to {a} {lst(t)}")
         out.append(f"new {lst(range(tot + 1))} {lst(sh)}")
         for p in (0,):
             for op in ("array_split", "split"):
